@@ -321,6 +321,8 @@ func c11Exec(schema *ast.Schema, op *c11Op) (res string) {
 		return b.String()
 	case "format":
 		return fmtSchema(schema, nil)
+	case "format-nodesc":
+		return fmtSchema(schema, []formatter.FormatterOption{formatter.WithoutDescription(), formatter.WithIndent("  ")})
 	case "format-builtin":
 		return fmtSchema(schema, []formatter.FormatterOption{formatter.WithBuiltin(), formatter.WithComments()})
 	case "schema-argmaps":
@@ -435,16 +437,18 @@ func c11BuildOps(r *core.Rand, mg *tsys.Merged, n int) []*c11Op {
 			op.kind = "argmap"
 		case k < 11:
 			op.kind = "format"
-			switch r.Intn(3) {
+			switch r.Intn(4) {
 			case 0:
 				op.kind = "schema-argmaps"
 			case 1:
 				op.kind = "format-builtin"
+			case 2:
+				op.kind = "format-nodesc"
 			}
 		default:
 			op.kind = "lookups"
 		}
-		if op.kind == "format" || op.kind == "format-builtin" || op.kind == "lookups" || op.kind == "schema-argmaps" {
+		if op.kind == "format" || op.kind == "format-nodesc" || op.kind == "format-builtin" || op.kind == "lookups" || op.kind == "schema-argmaps" {
 			ops = append(ops, op)
 			continue
 		}
@@ -517,6 +521,39 @@ func c11Check(x *core.Ctx, c *core.Case) {
 				x.Count("rounds_with_shared_root_type")
 			}
 		}
+	}
+	if seed%4 == 2 {
+		// no query root at all, but an ordinary type that happens to be called Query (only mutations can be run)
+		mut, hasQ := "", false
+		var rest []*model.Item
+		var schemaDirs []model.Dir
+		for _, it := range items {
+			if it.Kind == "schema" {
+				for _, ot := range it.OpTypes {
+					if ot.Op == "mutation" {
+						mut = ot.Type
+					}
+				}
+				schemaDirs = append(schemaDirs, it.Dirs...)
+				continue
+			}
+			if it.Kind == "type" && it.Name == "Query" {
+				hasQ = true
+			}
+			if it.Kind == "type" && it.Name == "Mutation" && mut == "" {
+				mut = "Mutation"
+			}
+			rest = append(rest, it)
+		}
+		if mut == "" {
+			mut = "Writes"
+			rest = append(rest, &model.Item{Kind: "type", Name: "Writes", Fields: []*model.FieldDef{{Name: "w", Type: &model.Type{Name: "Int"}, Args: []*model.ArgDef{{Name: "n", Type: &model.Type{Name: "Int"}}}}}})
+		}
+		if !hasQ {
+			rest = append(rest, &model.Item{Kind: "type", Name: "Query", Fields: []*model.FieldDef{{Name: "q", Type: &model.Type{Name: "Int"}}}})
+		}
+		items = append(rest, &model.Item{Kind: "schema", OpTypes: []model.OpType{{Op: "mutation", Type: mut}}, Dirs: schemaDirs})
+		x.Count("rounds_without_query_root")
 	}
 	src := (&model.Renderer{}).RenderSDoc(&model.SDoc{Items: items})
 	schema, err := gqlparser.LoadSchema(&ast.Source{Name: "shared.graphql", Input: src})
